@@ -574,9 +574,22 @@ def run_check(pid, tier, seed):
     # 3: cases
     rng = random.Random(seed)
     n = prop.quick_n if tier == "quick" else prop.thorough_n
-    corpus = list(prop.corpus())
-    exh = list(prop.exhaustive(tier))
-    gen = list(prop.generate(rng, n, tier))
+    try:
+        corpus = list(prop.corpus())
+        exh = list(prop.exhaustive(tier))
+        gen = list(prop.generate(rng, n, tier))
+    except Exception as e:
+        if not _raised_in_library(e):
+            raise
+        # a generator that builds its subjects with the real library met an exception escaping from LIBRARY code:
+        # that is an observation about the library (no documented call raises there), not a harness failure
+        path = write_replay(pid, "violation", {"property": pid, "tier": tier, "seed": seed,
+                                                "kind": "library-raised-while-building-cases",
+                                                "exception": type(e).__name__, "traceback": traceback.format_exc()[-3000:],
+                                                "how_to_replay": "VERIF_SEED=%d ./check %s --tier %s" % (seed, pid, tier)})
+        print("VIOLATION property=%s replay=%s" % (pid, path))
+        log("[%s] VIOLATION: %s escaped from library code while the cases were being built" % (pid, type(e).__name__))
+        return 1
     cases = corpus + exh + gen
     origin = ["corpus"] * len(corpus) + ["exhaustive"] * len(exh) + ["generated"] * len(gen)
     log("[%s] %d cases (%d corpus, %d exhaustive, %d generated); build %.1fs" % (pid, len(cases), len(corpus), len(exh), len(gen), b.wall))
